@@ -11,12 +11,83 @@ import (
 	"strings"
 )
 
-func supported(k kind) bool { return k == kByte || k == kNat || k == kInt || k == kBool || k == kBytes }
+// fsig: the Lean signature of an emitted function.  Implicit binders (declared callees such as a block function, and
+// receiver field paths such as a_ivSize) are passed on by NAME when the function is called from a later function.
+type fsig struct {
+	binders  []binder
+	implicit []bool
+	pathSrc  map[string]string     // path binder -> printed Go path (a.ivSize)
+	pathTy   map[string]types.Type // path binder -> Go type
+	proc     bool  // the value is the final content of the written slice parameters (Option of it if the Go function returns an error)
+	outIdx   []int // indices (among the Go parameters incl. a named receiver) of the written slice parameters
+	optional bool
+	nRecv    int // 1 if the Go function has a named receiver
+}
+
+// importCallees: calls of already emitted functions / methods of this unit bring their implicit binders into the caller.
+func (t *tr) importCallees(f *fctx, stmts []ast.Stmt) (extraPaths []string, extraTy map[string]types.Type) {
+	extraTy = map[string]types.Type{}
+	for _, s := range stmts {
+		ast.Inspect(s, func(nd ast.Node) bool {
+			c, ok := nd.(*ast.CallExpr)
+			if !ok {
+				return true
+			}
+			sg := t.calleeSig(c)
+			if sg == nil {
+				return true
+			}
+			for i, b := range sg.binders {
+				if !sg.implicit[i] {
+					continue
+				}
+				if src, isPath := sg.pathSrc[b.name]; isPath {
+					if _, dup := extraTy[src]; !dup {
+						extraPaths = append(extraPaths, src)
+						extraTy[src] = sg.pathTy[b.name]
+					}
+					continue
+				}
+				if !f.hasBinder(b.name) {
+					f.binders = append(f.binders, b)
+				}
+			}
+			return true
+		})
+	}
+	return
+}
+
+// calleeSig: the signature of an emitted function of this unit that a call targets (plain call or method call on a variable)
+func (t *tr) calleeSig(c *ast.CallExpr) *fsig {
+	switch x := c.Fun.(type) {
+	case *ast.Ident:
+		if o := t.objOf(x); o != nil && o.Parent() == t.u.pkg.Scope() {
+			return t.u.sigs[x.Name]
+		}
+	case *ast.SelectorExpr:
+		if sel, ok := t.u.info.Selections[x]; ok && sel.Kind() == types.MethodVal {
+			if fn, ok := sel.Obj().(*types.Func); ok && fn.Pkg() == t.u.pkg {
+				if _, isId := x.X.(*ast.Ident); isId {
+					if d, ok := t.u.decls[x.Sel.Name]; ok && t.u.info.Defs[d.Name] == sel.Obj() {
+						return t.u.sigs[x.Sel.Name]
+					}
+				}
+			}
+		}
+	}
+	return nil
+}
+
+func supported(k kind) bool {
+	return k == kByte || k == kNat || k == kInt || k == kBool || k == kBytes || k == kRec || k == kRecList || k == kSet
+}
 
 // collectPaths finds the field paths p.f.g (of a supported type) rooted at one of the given outer variables.
-func (t *tr) collectPaths(stmts []ast.Stmt, outer map[types.Object]bool) (paths []string, tys map[string]types.Type, roots map[string]types.Object) {
+func (t *tr) collectPaths(stmts []ast.Stmt, outer map[types.Object]bool) (paths []string, tys map[string]types.Type, roots map[string]types.Object, nodes map[string]ast.Expr) {
 	tys = map[string]types.Type{}
 	roots = map[string]types.Object{}
+	nodes = map[string]ast.Expr{}
 	rootOf := func(e ast.Expr) types.Object {
 		for {
 			switch x := e.(type) {
@@ -53,6 +124,7 @@ func (t *tr) collectPaths(stmts []ast.Stmt, outer map[types.Object]bool) (paths 
 				paths = append(paths, src)
 				tys[src] = t.typeOf(se)
 				roots[src] = r
+				nodes[src] = se
 			}
 			return false
 		})
@@ -76,8 +148,35 @@ func (t *tr) opaqueBinders(f *fctx, stmts []ast.Stmt, ops []opq, n ast.Node) {
 			continue
 		}
 		var parts []string
-		for i := 0; i < sig.Params().Len(); i++ {
+		np := sig.Params().Len()
+		if sig.Variadic() {
+			np--
+		}
+		for i := 0; i < np; i++ {
 			parts = append(parts, t.leanType(sig.Params().At(i).Type()))
+		}
+		if sig.Variadic() {
+			// a variadic callee takes as many arguments as its (unique-arity) calls here pass
+			nargs := -1
+			for _, s := range stmts {
+				ast.Inspect(s, func(nd ast.Node) bool {
+					if c, ok := nd.(*ast.CallExpr); ok && t.src(c.Fun) == o.callee {
+						if c.Ellipsis.IsValid() || (nargs >= 0 && nargs != len(c.Args)) {
+							nargs = -2
+						} else if nargs == -1 {
+							nargs = len(c.Args)
+						}
+					}
+					return true
+				})
+			}
+			if nargs < np {
+				t.fail(n, "variadic opaque callee %s: calls with different arities or a spread argument", o.callee)
+			}
+			el := sig.Params().At(np).Type().(*types.Slice).Elem()
+			for i := np; i < nargs; i++ {
+				parts = append(parts, t.leanType(el))
+			}
 		}
 		res := t.leanResult(sig.Results())
 		if strings.Contains(res, " ") && len(parts) > 0 {
@@ -92,6 +191,141 @@ func (t *tr) opaqueBinders(f *fctx, stmts []ast.Stmt, ops []opq, n ast.Node) {
 	}
 }
 
+// blockBinders: block-cipher calls declared with -block become parameters `name : Bytes → Bytes`; -abstract callees are noted.
+func (t *tr) blockBinders(f *fctx, stmts []ast.Stmt, fn string, n ast.Node) {
+	for _, o := range t.u.block[fn] {
+		found := false
+		for _, s := range stmts {
+			ast.Inspect(s, func(nd ast.Node) bool {
+				if c, ok := nd.(*ast.CallExpr); ok && t.src(c.Fun) == o.callee {
+					found = true
+				}
+				return true
+			})
+		}
+		if !found {
+			t.fail(n, "block callee %s is not called here", o.callee)
+			continue
+		}
+		f.blockops[o.callee] = o
+		if !f.hasBinder(leanName(o.name)) {
+			f.binders = append(f.binders, binder{leanName(o.name), "Bytes → Bytes"})
+		}
+	}
+	for _, c := range t.u.abstract[fn] {
+		f.abstract[c] = true
+	}
+	calledSig := func(callee string) *types.Signature {
+		var sig *types.Signature
+		for _, s := range stmts {
+			ast.Inspect(s, func(nd ast.Node) bool {
+				if c, ok := nd.(*ast.CallExpr); ok && sig == nil && t.src(c.Fun) == callee {
+					sig, _ = t.typeOf(c.Fun).(*types.Signature)
+				}
+				return true
+			})
+		}
+		return sig
+	}
+	for _, o := range t.u.apply[fn] {
+		sig := calledSig(o.callee)
+		if sig == nil {
+			t.fail(n, "-apply callee %s is not called here", o.callee)
+			continue
+		}
+		f.applyops[o.callee] = o
+		ty := "Bytes → Bytes"
+		for _, s := range stmts {
+			ast.Inspect(s, func(nd ast.Node) bool {
+				if c, ok := nd.(*ast.CallExpr); ok && t.src(c.Fun) == o.callee && ty == "Bytes → Bytes" {
+					if sel, ok := c.Fun.(*ast.SelectorExpr); ok {
+						if kr, _ := t.kindOf(sel.X); kr != kBad && kr != kErr {
+							ty = leanTypeOfKind(kr) + " → " + ty // keyed by the receiver's representation
+						}
+					}
+				}
+				return true
+			})
+		}
+		if !f.hasBinder(leanName(o.name)) {
+			f.binders = append(f.binders, binder{leanName(o.name), ty})
+		}
+	}
+	for _, o := range t.u.fill[fn] {
+		if calledSig(o.callee) == nil {
+			t.fail(n, "-fill callee %s is not called here", o.callee)
+			continue
+		}
+		// the source of fresh bytes is a pure function of the length here, which is only faithful for ONE draw:
+		// several draws (or a draw in a loop) must be translated -stateful with the source as an external object
+		ncalls, inLoop := 0, false
+		var walk func(nd ast.Node, loop bool)
+		walk = func(nd ast.Node, loop bool) {
+			ast.Inspect(nd, func(x ast.Node) bool {
+				switch y := x.(type) {
+				case *ast.ForStmt:
+					if y != nd {
+						walk(y.Body, true)
+						return false
+					}
+				case *ast.RangeStmt:
+					if y != nd {
+						walk(y.Body, true)
+						return false
+					}
+				case *ast.CallExpr:
+					if t.src(y.Fun) == o.callee {
+						ncalls++
+						if loop {
+							inLoop = true
+						}
+					}
+				}
+				return true
+			})
+		}
+		for _, s := range stmts {
+			walk(s, false)
+		}
+		if ncalls != 1 || inLoop {
+			t.fail(n, "-fill callee %s is called %d times (in a loop: %v): exactly one draw outside loops is supported", o.callee, ncalls, inLoop)
+		}
+		f.fillops[o.callee] = o
+		if !f.hasBinder(leanName(o.name)) {
+			f.binders = append(f.binders, binder{leanName(o.name), "Int → Bytes"})
+		}
+	}
+	for _, o := range t.u.inout[fn] {
+		sig := calledSig(o.callee)
+		if sig == nil {
+			t.fail(n, "-inout callee %s is not called here", o.callee)
+			continue
+		}
+		f.inouts[o.callee] = o
+		var parts []string
+		for i := 0; i < sig.Params().Len(); i++ {
+			parts = append(parts, t.leanType(sig.Params().At(i).Type()))
+		}
+		parts = append(parts, "("+t.leanResult(sig.Results())+")")
+		ty := strings.Join(parts, " → ")
+		if strings.Contains(ty, "UNSUPPORTED") || sig.Results().Len() != 2 {
+			t.fail(n, "-inout callee %s has an unsupported signature %s", o.callee, sig)
+		}
+		if !f.hasBinder(leanName(o.name)) {
+			f.binders = append(f.binders, binder{leanName(o.name), ty})
+		}
+	}
+	for _, o := range t.u.ctor[fn] {
+		if calledSig(o.callee) == nil {
+			t.fail(n, "-ctor callee %s is not called here", o.callee)
+			continue
+		}
+		idx := 0
+		fmt.Sscanf(o.name, "%d", &idx)
+		f.ctors[o.callee] = idx
+	}
+}
+
 func (t *tr) finish(f *fctx, resTy, body string) string {
 	return strings.Join(f.aux, "\n") + "\n" + fmt.Sprintf("def %s %s : %s :=\n%s\n", f.name, f.binderDecl(), resTy, body)
 }
@@ -100,7 +334,78 @@ func (t *tr) fn(fd *ast.FuncDecl) string {
 	u := t.u
 	f := newFctx(leanName(fd.Name.Name), u.opaque[fd.Name.Name])
 	t.f = f
+	f.stateful = u.stateful[fd.Name.Name]
+	f.goSig, _ = u.info.Defs[fd.Name].Type().(*types.Signature)
+	// external stateful objects: an abstract state type per object, the callee as a function on it
+	var externVars []*types.Var
+	if f.stateful {
+		seenPath := map[string]bool{}
+		for _, e := range u.extern[fd.Name.Name] {
+			f.externs = append(f.externs, e)
+			f.externRead[e.callee] = u.externKind[fd.Name.Name+":"+e.callee] == "read"
+			sty := "S_" + pathName(e.path)
+			if !seenPath[e.path] {
+				seenPath[e.path] = true
+				f.binders = append(f.binders, binder{sty, "Type"})
+				var node ast.Expr
+				ast.Inspect(fd.Body, func(nd ast.Node) bool {
+					if se, ok := nd.(*ast.SelectorExpr); ok && node == nil && t.src(se) == e.path {
+						node = se
+					}
+					return true
+				})
+				var v *types.Var
+				if !strings.Contains(e.path, ".") {
+					// a global object (the random source): not a field of anything here
+					v = t.pathVarNamed(e.path, fd.Pos(), types.Typ[types.Invalid])
+				} else if node == nil {
+					t.fail(fd, "external object %s does not occur in %s", e.path, fd.Name.Name)
+					continue
+				} else {
+					v = t.pathVarNamed(e.path, node.Pos(), t.typeOf(node))
+				}
+				f.typeOverride[v] = sty
+				externVars = append(externVars, v)
+			}
+		}
+		for _, e := range f.externs {
+			sty := "S_" + pathName(e.path)
+			ty := sty + " → Bytes → Int × Nat × " + sty
+			if f.externRead[e.callee] {
+				ty = sty + " → Int → Bytes × Nat × " + sty
+			}
+			if u.externKind[fd.Name.Name+":"+e.callee] == "value" {
+				// callee() T: the object hands out one value
+				var rt types.Type
+				ast.Inspect(fd.Body, func(nd ast.Node) bool {
+					if c, ok := nd.(*ast.CallExpr); ok && rt == nil && t.src(c.Fun) == e.callee {
+						rt = t.typeOf(c)
+					}
+					return true
+				})
+				if rt == nil {
+					t.fail(fd, "-extern callee %s is not called here", e.callee)
+					continue
+				}
+				ty = sty + " → " + t.leanType(rt) + " × " + sty
+				f.externValue[e.callee] = true
+			}
+			if !f.hasBinder(leanName(e.name)) {
+				f.binders = append(f.binders, binder{leanName(e.name), ty})
+			}
+		}
+	} else if len(u.extern[fd.Name.Name]) > 0 {
+		t.fail(fd, "-extern needs -stateful")
+	}
+	if hasWhile(fd.Body.List) {
+		f.binders = append(f.binders, binder{"fuel", "Nat"})
+	}
 	t.opaqueBinders(f, fd.Body.List, u.opaque[fd.Name.Name], fd)
+	t.blockBinders(f, fd.Body.List, fd.Name.Name, fd)
+	nImplicitHead := len(f.binders)
+	extraPaths, extraTy := t.importCallees(f, fd.Body.List)
+	nImplicitHead = len(f.binders)
+	sg := &fsig{pathSrc: map[string]string{}, pathTy: map[string]types.Type{}}
 	var fields []*ast.Field
 	if fd.Recv != nil {
 		fields = append(fields, fd.Recv.List...)
@@ -117,16 +422,33 @@ func (t *tr) fn(fd *ast.FuncDecl) string {
 			outer[u.info.Defs[n]] = true
 		}
 	}
-	paths, ptys, proots := t.collectPaths(fd.Body.List, outer)
-	plain := len(u.opaque[fd.Name.Name]) == 0
+	paths, ptys, proots, pnodes := t.collectPaths(fd.Body.List, outer)
+	// receiver field paths that only a callee uses (the receiver has the same name in all methods of a type)
+	for _, p := range extraPaths {
+		if _, have := ptys[p]; have {
+			continue
+		}
+		rootName, _, _ := strings.Cut(p, ".")
+		for o := range outer {
+			if o != nil && o.Name() == rootName {
+				paths = append(paths, p)
+				ptys[p] = extraTy[p]
+				proots[p] = o
+			}
+		}
+		if _, ok := ptys[p]; !ok {
+			t.fail(fd, "a callee needs %s, which is not a field path of a parameter here", p)
+		}
+	}
+	plain := nImplicitHead == 0 && len(u.apply[fd.Name.Name]) == 0 && len(u.fill[fd.Name.Name]) == 0
 	var sliceParams []*ast.Ident
 	for _, n := range params {
 		obj := u.info.Defs[n]
 		k, _ := classify(obj.Type())
 		if supported(k) {
-			f.binders = append(f.binders, binder{leanName(n.Name), leanTypeOfKind(k)})
+			f.binders = append(f.binders, binder{leanName(n.Name), t.leanType(obj.Type())})
 			f.env[obj] = leanName(n.Name)
-			if _, isSlice := obj.Type().Underlying().(*types.Slice); isSlice {
+			if _, isSlice := obj.Type().Underlying().(*types.Slice); isSlice && k == kBytes {
 				sliceParams = append(sliceParams, n)
 			}
 			continue
@@ -135,15 +457,57 @@ func (t *tr) fn(fd *ast.FuncDecl) string {
 			if proots[p] == obj {
 				pn := pathName(p)
 				f.binders = append(f.binders, binder{pn, t.leanType(ptys[p])})
-				f.paths[p] = pn
+				if nd, ok := pnodes[p]; ok {
+					f.env[t.pathVar(nd)] = pn
+				} else {
+					f.env[t.pathVarNamed(p, fd.Pos(), ptys[p])] = pn
+				}
+				sg.pathSrc[pn] = p
+				sg.pathTy[pn] = ptys[p]
 				plain = false
 			}
 		}
 	}
+	for _, v := range externVars {
+		f.binders = append(f.binders, binder{v.Name(), f.typeOverride[v]})
+		f.env[v] = v.Name()
+		plain = false
+	}
+	t.findViews(fd.Body.List)
 	// results
 	res := fd.Type.Results
 	var resTy string
-	if res != nil && len(res.List) > 0 {
+	errOnly := false
+	if f.stateful {
+		t.statefulSetup(fd, outer)
+		sp := t.storedObjs(fd.Body.List)
+		for o := range sp {
+			if r, ok := f.viewRoot[o]; ok {
+				sp[r] = true
+			}
+		}
+		var tys []string
+		for _, o := range f.stateObjs {
+			tys = append(tys, t.leanTypeOfObj(o))
+		}
+		for _, pn := range sliceParams {
+			if o := u.info.Defs[pn]; sp[o] {
+				f.outParams = append(f.outParams, o)
+				tys = append(tys, "Bytes")
+			}
+		}
+		for i := 0; i < f.goSig.Results().Len(); i++ {
+			tys = append(tys, t.leanType(f.goSig.Results().At(i).Type()))
+		}
+		if len(tys) == 0 {
+			t.fail(fd, "stateful function without state, written parameters or results")
+		}
+		resTy = strings.Join(tys, " × ")
+		if strings.Contains(resTy, "UNSUPPORTED") {
+			t.fail(fd, "result type of stateful %s: %s", fd.Name.Name, resTy)
+		}
+		plain = false
+	} else if res != nil && len(res.List) > 0 {
 		sig := u.info.Defs[fd.Name].Type().(*types.Signature)
 		resTy = t.leanResult(sig.Results())
 		n := sig.Results().Len()
@@ -160,7 +524,60 @@ func (t *tr) fn(fd *ast.FuncDecl) string {
 		if strings.Contains(resTy, "UNSUPPORTED") {
 			t.fail(fd, "result type %s", sig.Results())
 		}
-	} else {
+		// slice parameters whose content is written: with an error-only result they are the value of the function
+		// (a procedure that can fail); otherwise every return must hand the written parameter back
+		stored := t.assignedObjs(fd.Body.List)
+		sp := t.storedObjs(fd.Body.List)
+		for o := range sp {
+			if r, ok := f.viewRoot[o]; ok {
+				sp[r] = true
+			}
+		}
+		var storedParams []types.Object
+		for _, pn := range sliceParams {
+			if o := u.info.Defs[pn]; stored[o] && sp[o] {
+				storedParams = append(storedParams, o)
+			}
+		}
+		if len(storedParams) > 0 {
+			if n == 0 && f.optional {
+				errOnly = true
+			} else {
+				for _, o := range storedParams {
+					visible := true
+					ast.Inspect(fd.Body, func(nd ast.Node) bool {
+						switch x := nd.(type) {
+						case *ast.FuncLit:
+							return false
+						case *ast.ReturnStmt:
+							if len(x.Results) == 0 {
+								return true
+							}
+							if f.optional {
+								if last, ok := x.Results[len(x.Results)-1].(*ast.Ident); !ok || last.Name != "nil" {
+									return true // error return: the buffer content is unspecified
+								}
+							}
+							found := false
+							for _, r := range x.Results {
+								if rootIs(t, r, o) {
+									found = true
+								}
+							}
+							if !found {
+								visible = false
+							}
+						}
+						return true
+					})
+					if !visible {
+						t.fail(fd, "the content of parameter %s is written but not part of the results", o.Name())
+					}
+				}
+			}
+		}
+	}
+	if !f.stateful && (res == nil || len(res.List) == 0 || errOnly) {
 		// a procedure: its value is the final content of the slice parameters it writes
 		written := t.assignedObjs(fd.Body.List)
 		var outs []types.Object
@@ -174,7 +591,29 @@ func (t *tr) fn(fd *ast.FuncDecl) string {
 		if len(outs) == 0 {
 			t.fail(fd, "procedure without a written slice parameter")
 		}
+		for i, n := range params {
+			for _, o := range outs {
+				if u.info.Defs[n] == o {
+					sg.outIdx = append(sg.outIdx, i) // index among the Go parameters (receiver first, if named)
+				}
+			}
+		}
+		sg.optional = errOnly
+		if len(outs) == 1 && plain {
+			// callable as a statement from later functions of this unit
+			for i, n := range params {
+				if u.info.Defs[n] == outs[0] && len(params) == len(f.binders) {
+					defer func(i int) { u.procs[fd.Name.Name] = i }(i)
+				}
+			}
+		}
 		resTy = strings.Join(tys, " × ")
+		if errOnly {
+			if len(tys) > 1 {
+				resTy = "(" + resTy + ")"
+			}
+			resTy = "Option " + resTy
+		}
 		f.outs = func() string {
 			var vs []string
 			for _, o := range outs {
@@ -188,14 +627,55 @@ func (t *tr) fn(fd *ast.FuncDecl) string {
 		plain = false
 	}
 	k := func() string {
+		if f.stateful && f.goSig.Results().Len() == 0 {
+			return t.statefulRet(&ast.ReturnStmt{}, f.goSig)
+		}
 		if f.outs != nil {
 			return f.outs()
 		}
 		return t.fail(fd, "control reaches the end of a function with results")
 	}
+	f.resTy = resTy
+	sg.binders = append([]binder{}, f.binders...)
+	for i, b := range sg.binders {
+		_, isPath := sg.pathSrc[b.name]
+		sg.implicit = append(sg.implicit, i < nImplicitHead || isPath)
+	}
+	sg.proc = f.outs != nil
 	body := t.block(fd.Body.List, 1, k)
+	if !f.stateful {
+		// never drop a state change silently: assigning a field of the receiver / a pointer parameter needs -stateful
+		isPath := map[types.Object]string{}
+		for src, v := range f.pvars {
+			isPath[v] = src
+		}
+		for o := range t.assignedObjs(fd.Body.List) {
+			if src, ok := isPath[o]; ok {
+				root, _, _ := strings.Cut(src, ".")
+				for po := range outer {
+					if po != nil && po.Name() == root {
+						t.fail(fd, "%s writes %s: translate it with -stateful", fd.Name.Name, src)
+					}
+				}
+			}
+		}
+	}
 	if plain {
 		u.emitted[fd.Name.Name] = true
+	}
+	if f.stateful {
+		sg.proc = true // not callable from other translated functions (yet)
+		sg.outIdx = nil
+	}
+	if fd.Recv != nil && len(fd.Recv.List) > 0 && len(fd.Recv.List[0].Names) > 0 && fd.Recv.List[0].Names[0].Name != "_" {
+		sg.nRecv = 1
+	}
+	if _, plainProc := u.procs[fd.Name.Name]; !plainProc {
+		defer func() {
+			if _, plainProc := u.procs[fd.Name.Name]; !plainProc {
+				u.sigs[fd.Name.Name] = sg
+			}
+		}()
 	}
 	return t.finish(f, resTy, body)
 }
@@ -208,7 +688,11 @@ func (t *tr) region(fd *ast.FuncDecl, r regionSpec) string {
 	}
 	f := newFctx(leanName(r.name), u.opaque[r.name])
 	t.f = f
+	if hasWhile(stmts) {
+		f.binders = append(f.binders, binder{"fuel", "Nat"})
+	}
 	t.opaqueBinders(f, stmts, u.opaque[r.name], fd)
+	t.blockBinders(f, stmts, r.name, fd)
 	start, end := stmts[0].Pos(), stmts[len(stmts)-1].End()
 	inside := func(p token.Pos) bool { return p >= start && p <= end }
 	// free variables in order of first occurrence
@@ -229,12 +713,12 @@ func (t *tr) region(fd *ast.FuncDecl, r regionSpec) string {
 			return true
 		})
 	}
-	paths, ptys, proots := t.collectPaths(stmts, seen)
+	paths, ptys, proots, pnodes := t.collectPaths(stmts, seen)
 	for _, o := range free {
 		k, _ := classify(o.Type())
 		if supported(k) {
 			bn := leanName(o.Name())
-			f.binders = append(f.binders, binder{bn, leanTypeOfKind(k)})
+			f.binders = append(f.binders, binder{bn, t.leanType(o.Type())})
 			f.env[o] = bn
 			continue
 		}
@@ -242,7 +726,7 @@ func (t *tr) region(fd *ast.FuncDecl, r regionSpec) string {
 			if proots[p] == o {
 				pn := pathName(p)
 				f.binders = append(f.binders, binder{pn, t.leanType(ptys[p])})
-				f.paths[p] = pn
+				f.env[t.pathVar(pnodes[p])] = pn
 			}
 		}
 	}
@@ -285,6 +769,8 @@ func (t *tr) region(fd *ast.FuncDecl, r regionSpec) string {
 		}
 		return "(" + strings.Join(vs, ", ") + ")"
 	}
+	t.findViews(stmts)
+	f.resTy = strings.Join(tys, " × ")
 	body := t.block(stmts, 1, f.outs)
 	hdr := fmt.Sprintf("/- region of %s: statements `%s` … `%s` -/\n", r.fn, firstLine(t.src(stmts[0])), firstLine(t.src(stmts[len(stmts)-1])))
 	return hdr + t.finish(f, strings.Join(tys, " × "), body)
